@@ -340,11 +340,14 @@ def finish(ctx: Ctx) -> int:
         "wall_s": round(time.time() - ctx.t0, 2),
         "violations": len(violations),
     }
-    os.makedirs(os.path.join(VERIF, "evidence"), exist_ok=True)
-    tmp = os.path.join(VERIF, "evidence", f".{ctx.prop}.json.tmp")
+    # evidence/ describes /repo itself; runs against another tree (mutation runs) write under .work/
+    evdir = (os.path.join(VERIF, "evidence") if os.path.abspath(ctx.repo) == "/repo"
+             else os.path.join(VERIF, ".work", "evidence-other-tree"))
+    os.makedirs(evdir, exist_ok=True)
+    tmp = os.path.join(evdir, f".{ctx.prop}.json.tmp")
     with open(tmp, "w", encoding="utf-8") as fp:
         json.dump(evidence, fp, indent=1, ensure_ascii=True, default=repr)
-    os.replace(tmp, os.path.join(VERIF, "evidence", f"{ctx.prop}.json"))
+    os.replace(tmp, os.path.join(evdir, f"{ctx.prop}.json"))
 
     for kid, (k, n) in sorted(known_hits.items()):
         print(f"KNOWN-FINDING: property={ctx.prop} {k['what']} [{kid}; {n} cases]")
